@@ -26,7 +26,6 @@ structure ExecOp where
   ctx : CallerCtx := {}
   run : Option Script := none
   fb : Option Script := none
-  ans : Ans := {}
   deriving Repr, DecidableEq
 
 /-- observed outcome of one Execute -/
@@ -62,11 +61,11 @@ def runValue (op : ExecOp) : Option ErrV :=
   | none => none
   | some sc => actValue sc (ctxErrAfter op.ctx sc)
 
-def fbValue (op : ExecOp) : Option ErrV :=
+def fbValue (op : ExecOp) (runCalls : Nat := 1) : Option ErrV :=
   match op.fb with
   | none => none
   | some sc =>
-    let ce := match op.run with | some r => ctxErrAfter op.ctx r | none => op.ctx.err
+    let ce := match op.run with | some r => if runCalls = 0 then op.ctx.err else ctxErrAfter op.ctx r | none => op.ctx.err
     let ce := match ce with | some e => some e | none => if sc.cancelCaller then some .canceled else none
     actValue sc ce
 
@@ -121,7 +120,7 @@ def verdictC06 (cfg : LiveCfg) (op : ExecOp) (o : ExecObs) : Option String :=
             else if ret == some .concLimit then none else some "throttled fallback must return a ConcurrencyLimitReached error"
           else if o.fbCalls ≠ 1 then some "enabled fallback not invoked for a failed run step"
           else if !(match o.fbArg with | some a => stepOk (some a) | none => false) then some "fallback did not receive the run step's error"
-          else if ret == fbValue op then none else some "Execute did not return the fallback's result"
+          else if ret == fbValue op o.runCalls then none else some "Execute did not return the fallback's result"
         else
           if o.fbCalls ≠ 0 then some "absent/disabled fallback invoked"
           else if stepOk ret ∧ ret.isSome then none else some "run step's error not returned unchanged"
@@ -139,7 +138,8 @@ def expectedExecutedKind (cfg : LiveCfg) (op : ExecOp) (sc : Script) : Kind :=
   else if ret.isSome then .failure
   else .success
 
-def verdictC05 (cfg : LiveCfg) (ck : CloserKind) (openBefore : Bool) (op : ExecOp) (o : ExecObs) : Option String :=
+/-- `adm`: what is known of the admission decision (none = unknown to the spec); `pv`: the opener's Prevent answer -/
+def verdictC05 (cfg : LiveCfg) (adm : Option Bool) (pv : Bool) (op : ExecOp) (o : ExecObs) : Option String :=
   if cfg.disabled then none else
   match op.run with
   | none => none
@@ -147,9 +147,8 @@ def verdictC05 (cfg : LiveCfg) (ck : CloserKind) (openBefore : Bool) (op : ExecO
     let evs := runEvents o.emits
     if (runPanics op).isSome ∧ o.runCalls = 1 then none else
     if !o.fanOk then some "sinks did not all receive the same callbacks" else
-    let adm := admission cfg ck openBefore op.ans
     -- vetoed by the custom opener: got past the open state, Prevent said yes
-    let vetoed := adm != some false && op.ans.prevent && o.runCalls = 0 && evs.isEmpty
+    let vetoed := adm != some false && pv && o.runCalls = 0 && evs.isEmpty
     if vetoed then none else
     match evs with
     | [(k, _, _)] =>
@@ -160,7 +159,7 @@ def verdictC05 (cfg : LiveCfg) (ck : CloserKind) (openBefore : Bool) (op : ExecO
         if !fbAttempted then []
         else if throttled cfg.fbMaxConc then [.reject]
         else if (fbPanics op).isSome then []
-        else [if (fbValue op).isSome then .failure else .success]
+        else [if (fbValue op o.runCalls).isSome then .failure else .success]
       let fbPart := if (fbEvents o.emits).map (·.1) == wantFb then none else some "fallback attempt not reported as exactly one fallback event of the right kind"
       if o.runCalls = 0 then
         match adm with
@@ -173,17 +172,16 @@ def verdictC05 (cfg : LiveCfg) (ck : CloserKind) (openBefore : Bool) (op : ExecO
     | _ => some "more than one run event for one call"
 
 /-! #### C01 — an open circuit sheds load -/
-def verdictC01 (cfg : LiveCfg) (ck : CloserKind) (openBefore : Bool) (op : ExecOp) (o : ExecObs) : Option String :=
+def verdictC01 (cfg : LiveCfg) (adm : Option Bool) (pv : Bool) (op : ExecOp) (o : ExecObs) : Option String :=
   if cfg.disabled ∨ op.run.isNone then none else
-  let adm := admission cfg ck openBefore op.ans
   let shed := adm == some false
-  let veto := adm == some true && op.ans.prevent
+  let veto := adm == some true && pv
   if !(shed || veto) then none
   else if o.runCalls ≠ 0 then some "run function invoked although the call is not admitted"
   else
     let retOk := match o.res with
       | .ret (some .circuitOpen) => o.fbCalls = 0
-      | .ret r => o.fbCalls = 1 ∧ o.fbArg == some .circuitOpen ∧ r == fbValue op
+      | .ret r => o.fbCalls = 1 ∧ o.fbArg == some .circuitOpen ∧ r == fbValue op o.runCalls
                ∨ (o.fbCalls = 0 ∧ r == some .concLimit ∧ op.fb.isSome ∧ throttled cfg.fbMaxConc)
       | .panic _ => o.fbCalls = 1 ∧ o.fbArg == some .circuitOpen
       | .nilFunc => false
@@ -193,7 +191,7 @@ def verdictC01 (cfg : LiveCfg) (ck : CloserKind) (openBefore : Bool) (op : ExecO
     else (if (runEvents o.emits).isEmpty then none else some "vetoed call recorded a run event")
 
 /-! #### C08 — overrides and pass-through -/
-def verdictC08 (cfg : LiveCfg) (openBefore : Bool) (op : ExecOp) (o : ExecObs) : Option String :=
+def verdictC08 (cfg : LiveCfg) (openBefore : Bool) (pv : Bool) (op : ExecOp) (o : ExecObs) : Option String :=
   if cfg.disabled then
     match op.run with
     | none => none
@@ -211,7 +209,7 @@ def verdictC08 (cfg : LiveCfg) (openBefore : Bool) (op : ExecOp) (o : ExecObs) :
   else if cfg.forcedClosed then
     if openBefore ∨ o.openAfter then some "ForcedClosed: IsOpen must be false"
     else if (notifs o.emits).contains true then some "ForcedClosed circuit was opened"
-    else if op.run.isSome ∧ o.runCalls = 0 ∧ !throttled cfg.maxConc ∧ !op.ans.prevent then some "ForcedClosed refused a call"
+    else if op.run.isSome ∧ o.runCalls = 0 ∧ !throttled cfg.maxConc ∧ !pv then some "ForcedClosed refused a call"
     else none
   else none
 
